@@ -7,7 +7,7 @@
    packets the machine hands to the socket between two reads of a command are a response of the grammar for that command
    with consecutive sequence numbers, and the machine is back at its prompt only when that response is complete. *)
 From Coq Require Import List Arith NArith Lia Bool.
-From MM Require Import Lib.Bytes Model.Conn Model.Resp Proofs.RespProofs Proofs.C10Proofs Gen.FactsConn Gen.FactsPackets Model.Packets Proofs.PacketProofs Proofs.C03Proofs Proofs.FuelProofs Proofs.DeferProofs Proofs.PipelineProofs.
+From MM Require Import Lib.Bytes Model.Conn Model.Resp Proofs.RespProofs Proofs.C10Proofs Gen.FactsConn Gen.FactsPackets Gen.FactsControl Model.Packets Proofs.PacketProofs Proofs.C03Proofs Proofs.FuelProofs Proofs.DeferProofs Proofs.PipelineProofs.
 Import ListNotations.
 Open Scope N_scope.
 
@@ -23,7 +23,9 @@ Theorem c03_source_shape :
   connection_connection_handle_init_db_ok = true /\ connection_connection_handle_stmt_reset_ok = true /\
   stream_mysqlstream_write_ok = true /\ stream_mysqlstream_reset_seq_ok = true /\
   constants_default_server_capabilities_ok = true /\ packets_make_column_count_ok = true /\
-  types_cap_deprecate_eof_bit = 24.
+  types_cap_deprecate_eof_bit = 24 /\
+  connection_connection_init___ok = true /\ connection_connection_ok_ok = true /\ connection_connection_eof_ok = true /\
+  packets_make_com_stmt_prepare_ok_ok = true /\ results_resultset_bool___ok = true /\ utils_seq_ok = true.
 Proof. repeat split; reflexivity. Qed.
 
 Theorem c03_text_resultset : forall s sz items, has_raise items = false -> sz_coldef sz <> [] ->
